@@ -1,4 +1,4 @@
-CONSTANTS Variant = "ReencodeContent"
+CONSTANTS Variant = "ReencodeContent"  ALens = {"natural"}  Slim = FALSE
 SPECIFICATION Spec
 INVARIANTS TypeOK SignedPartsSame MandatoryAttrsOnce RefuseOnlyWhenJustified
 CHECK_DEADLOCK FALSE
